@@ -273,6 +273,21 @@ def check_shape(ctx, fb):
                 aa = cps[0].calls(r"^std::ops::AddAssign::add_assign$")
                 want_idx = ("idx", F(P(1), "0"), ("bin", "Add", *sorted([F(P(1), "1"), F(P(2), "0")], key=repr)))
                 good = len(aa) == 1 and aa[0][2] == (F(P(2), "1"), want_idx) and caps == [P(3), P(4)] and len(cps[0].calls()) == 1
+    if not good:
+        # the same layer written as `for i in 0..state.len() { state[i] += c[it + i] }`
+        backs = [p for p in ap if p.kind == "backedge"]
+        rets = ret_paths(ap)
+        if len(backs) == 1 and len(rets) == 1 and not [a for p in ap for a, v in p.conds() if a[0] != "ok"]:
+            b = backs[0]
+            cell = b.store.get((b.frame, -2))
+            if isinstance(cell, tuple) and cell[0] == "with" and cell[1][0] == "phi" and cell[1][4] == P(2) and cell[2][0] == "idx":
+                i = cell[2][1]
+                rv_ = range_var(i)
+                v = cell[3]
+                want = {("idx", P(3), ("bin", "Add", P(4), i)), ("idx", cell[1], i)}
+                want2 = {("idx", P(3), ("bin", "Add", i, P(4))), ("idx", cell[1], i)}
+                good = rv_ is not None and cint(rv_[0]) == 0 and rv_[1] in (("len", P(2)), ("len", cell[1])) and isinstance(v, tuple) and v[0] == "fadd" and set(v[1:]) in (want, want2) \
+                    and not writes(b, only_params=False)[1:] 
     ctx.check(good, "R09-4", PH + "ark", "state[i] += c[it + i] for every lane", "round-constant layer deviates from state[i] += c[it + i] over all lanes", loc(ait))
     # ---- mix_2
     mit = fb.need(PH + "mix_2")
@@ -300,6 +315,14 @@ def check_shape(ctx, fb):
                     if len(mat) == 1 and len(vec) == 1 and mat[0][2] == vec[0][2] and mat[0][1][2][0] == "i" and mat[0][2][0] == "i" \
                             and mat[0][2][1:] == (mk_const("usize", 0), n) and mat[0][1][2][1:] == (mk_const("usize", 0), n):
                         good = True
+                    # inner loop written as `for (j, s) in state.iter().enumerate()`: the column index and the state element come from one
+                    # enumeration of the whole state
+                    en = [x for x in subterms(prods[0]) if x[0] == "unwrap" and x[1][0] == "call" and x[1][1].endswith("Enumerate<I> as std::iter::Iterator>::next")
+                          and x[1][2][0][0] == "phi" and x[1][2][0][4] in (call("std::iter::Iterator::enumerate", P(2)), call("std::iter::Iterator::enumerate", call("core::slice::<impl [T]>::iter", P(2))))]
+                    if len(mat) == 1 and not vec and en:
+                        e0 = en[0]
+                        if mat[0][2] == F(e0, "0") and F(e0, "1") in pr and mat[0][1][2][0] == "i" and mat[0][1][2][1:] == (mk_const("usize", 0), n):
+                            good = True
         if good:
             ws = [w for b in backs for w in writes(b)]
             good = len(ws) == 1 and ws[0][1][1] == -4 and ws[0][2] and ws[0][2][0][0] == "idx" and ws[0][3][0] == "phi"
